@@ -1,5 +1,5 @@
 From Coq Require Import ExtrOcamlBasic NArith List.
 From LV Require Import lib.Conv lib.Bytes model.Codec model.EventCheck spec.EventCheckSpec.
 Extraction "model.ml" conv_roots be unbe event_id
-  validate validate_opt epoch_validate_opt basic_validate epoch_validate parents_validate result_code
+  validate run_history validate_opt epoch_validate_opt basic_validate epoch_validate parents_validate result_code
   answer_ok answer_ok_gen wf_event_b.
